@@ -7063,3 +7063,23 @@ mod tests {
 		do_test_htlc_accountable_from_u8(Some(0), Some(false));
 	}
 }
+
+#[cfg(feature = "_verif")]
+#[allow(missing_docs)]
+pub mod verif_hooks {
+	use super::*;
+	/// kind: 0 ipv4, 1 ipv6, 2 onion v2, 3 onion v3, 4 hostname of `hostname_len` bytes
+	pub fn socket_address_len(kind: u8, hostname_len: u8) -> u16 {
+		let addr = match kind {
+			0 => SocketAddress::TcpIpV4 { addr: [0; 4], port: 1 },
+			1 => SocketAddress::TcpIpV6 { addr: [0; 16], port: 1 },
+			2 => SocketAddress::OnionV2([0; 12]),
+			3 => SocketAddress::OnionV3 { ed25519_pubkey: [0; 32], checksum: 0, version: 0, port: 1 },
+			_ => SocketAddress::Hostname {
+				hostname: Hostname::try_from("a".repeat(hostname_len as usize)).unwrap(),
+				port: 1,
+			},
+		};
+		addr.len()
+	}
+}
